@@ -160,6 +160,8 @@ func checkC14(c *Ctx, r *Report) {
 	}
 	r.count("recursion_cycles", len(sccs))
 	checkMaterializeGuard(c, r)
+	// nothing waits on a goroutine: a run cannot block for ever on a channel or WaitGroup
+	checkNoGoroutines(c, r, "C14.c")
 
 	// ---- C14.d dropped errors
 	eds := w.errDropSites()
